@@ -41,6 +41,12 @@ def optsets(ctx):
         sets.append("%s,1,0,2,%s" % (std, DEFAULT_BITS))
         sets.append("%s,1,0,2,%s" % (std, "1" * NFLAGS))
         sets.append("%s,1,0,2,%s" % (std, "0" * NFLAGS))
+    # the same selections made through the options object's with-ers (default-constructed, or constructed with ANOTHER standard first):
+    # what the lexer obeys must be what was selected last (seeded change C17-c cached the standard at construction)
+    for std in "0123":
+        for route in "wx":
+            sets.append("%s%s,1,0,2,%s" % (std, route, DEFAULT_BITS))
+            sets.append("%s%s,1,0,2,%s" % (std, route, "1" * NFLAGS))
     off = ["2,0,0,2," + DEFAULT_BITS, "2,0,0,2," + "d" * 24 + "0" + "d" * 6, "0,0,0,2," + "1" * NFLAGS]
     flips = []
     defaults = "0000011111111111111001" + "1" * 9       # LanguageExtensions() / MacroTranslations() defaults
@@ -89,7 +95,9 @@ def run(ctx):
     for o in flips + rnd:
         lines += ["%s %s" % (o, w.encode().hex()) for w in (small if ctx.quick else words)]
     ctx.log("sweep: %d words, %d option sets, %d cases" % (len(words), len(sets + off + flips + rnd), len(lines)))
-    impl, model = stages.run_both(ctx, "keywords", lines)
+    from .. import leanb
+    impl = stages.run_harness(ctx, "keywords", lines)
+    model = leanb.model("keywords", "\n".join(re.sub(r"^(\d)[wxc],", r"\1,", l) for l in lines) + "\n")      # the model knows no routes
     nviol = ncorr = 0
     nontrivial = set()
     for l, i, m in zip(lines, impl, model):
@@ -136,7 +144,8 @@ def replay(ctx, rec):
     stages.cxx_stage(ctx, "ndebug")
     leanb.lake_build(["psymodel"])
     l = rec["replay"]["case"]
-    impl, model = stages.run_both(ctx, "keywords", [l])
+    impl = stages.run_harness(ctx, "keywords", [l])
+    model = leanb.model("keywords", re.sub(r"^(\d)[wxc],", r"\1,", l) + "\n")
     print("case :", l, "(word %r)" % bytes.fromhex(l.split()[1]).decode())
     print("impl :", impl[0], "   (first-token-kind token-count recognize translate)")
     print("model:", model[0], "   (model recognize translate SPEC)")
